@@ -60,6 +60,11 @@ CHECKS = {
         "TLC validates Req subseteq Avail and XGETBV=>OSXSAVE for every pair, and reports drift between the transcribed resolver macros and the real choice (currently 0 of 816,480). 'All choices agree' is decided by C01-C04, C08, C13, C20 which execute every variant.",
    note="Trusted: closure rules R1-R13 (what counts as an architecturally consistent CPU); the mnemonic/encoding classifier (lib/isa_classify.py); TLC.",
    technique="TLC enumeration of the TLA+ configuration space; trace validation of the real resolvers' selections against Dispatch!Avail"),
+ "C17": dict(cat="exploration", ref="DESIGN.md §3 C17",
+   text="Inputs repeating at distances 2^w-1, 2^w, 2^w+1, 32767..32769, 70000 for w=9..15 x levels x flush x simulated CPU levels, and dictionaries of length 1..70000 (set directly / pre-processed, at stream start and after a completed FULL flush) are compressed; TLC decodes every stream with the TLA+ decoder, "
+        "which records per block the maximum distance and the minimum referenced position, and requires distance <= 2^w <= 32768, no reference before the data/dictionary, CINFO+8 >= w, round trip with the dictionary as preset history; "
+        "pre-processed vs direct and long vs 32 KiB-tail dictionaries must give identical streams (TraceEqual.tla), wrong-state dictionary calls must be refused without effect, and isal_inflate primed with the same dictionary must reproduce the data (TraceInflate.tla).",
+   note="Trusted: TLC/spec; harness; default 32 KiB history build.", technique="trace validation with the TLA+ decoder's per-block distance/reference bookkeeping; relational pairs judged by TLC"),
  "C18": dict(cat="exploration", ref="DESIGN.md §3 C18",
    text="isal_hufftables structures built by both builders from adversarial histograms (all-zero, single/two symbols, uniform, powers of two, Fibonacci depth-limit cases, values near 2^44, zero end-of-block count, collected by every isal_update_histogram variant) are dumped and judged by TLC with spec/HuffTables.tla: "
         "the stored header must parse (RFC 1951 header parser of Deflate.tla) to complete prefix codes with lengths <= 15, an EOB code, lit+len+dist <= 56 bits, and the encoder's lit/len/dist tables must equal the bit-reversed canonical codes; "
